@@ -30,6 +30,16 @@ CLAIMS = {
          "accumulators everywhere, mark clearing on exit / end of step, default propagation, TaskStatus ordering, and payload~void sibling agreement. "
          "Does not decide the step-level accumulation of statuses across nested regions as values.",
          "field-flow + decision-tree path rules + sibling skeleton agreement over clang AST facts (static analysis)"),
+ "C07": ("Decides the capacity clause (no effect and `false` at capacity), who may write the link / bound / task tables, the exact write sets of linkTask "
+         "(append at the tail with the old tail as predecessor), remove (both neighbours or the bound re-linked, both links of the freed slot reset, "
+         "exactly the addressed slot freed last) and clearTasks (successor read before the slot is freed, bounds reset), agreement of the three plan "
+         "iterators, and reset-to-initial of clear(). Does not decide the global list-shape invariant over arbitrary interleavings.",
+         "per-path write-set rules + who-may-write + pattern-level sibling normal forms over clang AST facts (static analysis)"),
+ "C14": ("Decides that the payload parameter of every ...With entry point (34 functions in 3 API layers plus PayloadPlanT::append) is the payload of the "
+         "Transition / Task constructed, the constructor / flag / payload() discipline of TransitionT and TaskT, the plan-to-transition payload arm, "
+         "alignment / size of the storage for every payload type in the zoo (int, over-aligned 64-byte struct), and the name-to-kind table. Does not "
+         "decide bytewise faithfulness of copying non-trivially-copyable payloads.",
+         "argument-flow + constructor-initialiser + record-layout rules over clang AST facts (static analysis)"),
  "C09": ("Decides what is recorded and when (approved arm only; published on every exit of a step; cleared on deactivation/reset/load/replay), that the "
          "change predicate compares the whole pending configuration, who may write the pin table and that it is read under a bound, and that replay reaches "
          "no guard, records exactly the replayed list and commits through the ordinary routine. Does not decide that replay lands in the same configuration "
